@@ -1,5 +1,6 @@
 import Cirbo.Proofs.MoreOps
 import Cirbo.Proofs.ConnRightWfs
+import Cirbo.Proofs.ReplaceWfs
 /-!
 # Histories over the extended set of public mutator calls keep the C02 invariant
 -/
@@ -20,11 +21,15 @@ inductive XOp
   /-- `connect_circuit(…, right_connect=True, …)`; `connect_right`, `connect_inputs` and
   `extend_circuit(right_connect=True)` are this call with their documented arguments -/
   | connectRight (other : Circuit) (thisC otherC : List Label) (name : Label) (addP : Bool)
+  /-- `replace_subcircuit(sub, inputs_mapping, outputs_mapping)`; `uuid` stands for the fresh uuid the
+  call draws for its temporary block name (any value) -/
+  | replaceSubcircuit (sub : Circuit) (im om : List (Label × Label)) (uuid : Nat)
 
 def XOp.valid : XOp → Prop
   | .h op => op.valid
   | .connectLeft other _ _ _ _ => WFS other
   | .connectRight other _ _ _ _ => WFS other
+  | .replaceSubcircuit sub im om _ => WFS sub ∧ (im.map (·.1)).Nodup ∧ (om.map (·.1)).Nodup
   | _ => True
 
 def runXOp (c : Circuit) : XOp → R Circuit
@@ -35,6 +40,9 @@ def runXOp (c : Circuit) : XOp → R Circuit
   | .makeBlockFromSlice n i o => c.makeBlockFromSlice n i o
   | .connectLeft other t o n a => c.connectCircuit other t o false n a
   | .connectRight other t o n a => c.connectCircuit other t o true n a
+  | .replaceSubcircuit sub im om k => match c.replaceSubcircuit sub im om k with
+    | .error e => .error e
+    | .ok (c', _) => .ok c'
 
 def runXOps : Circuit → List XOp → R Circuit
   | c, [] => .ok c
@@ -54,6 +62,16 @@ theorem runXOp_wfs {c c' : Circuit} {op : XOp} (hw : WFS c) (hv : op.valid) (h :
   | makeBlockFromSlice n i o => exact makeBlockFromSlice_wfs hw h
   | connectLeft other t o n a => exact connectLeft_wfs hw hv h
   | connectRight other t o n a => exact connectRight_wfs hw hv h
+  | replaceSubcircuit sub im om k =>
+    simp only [runXOp] at h
+    cases hr : c.replaceSubcircuit sub im om k with
+    | error e => rw [hr] at h; cases h
+    | ok pr =>
+      obtain ⟨c1, k1⟩ := pr
+      rw [hr] at h
+      simp only [Except.ok.injEq] at h
+      subst h
+      exact replaceSubcircuit_wfs hw hv.1 hv.2.1 hv.2.2 hr
 
 theorem runXOps_wfs : ∀ (ops : List XOp) {c c' : Circuit}, WFS c → (∀ op ∈ ops, op.valid) →
     runXOps c ops = .ok c' → WFS c' := by
